@@ -1310,8 +1310,18 @@ def c04_targets(ctx, al, tier):
         single = ['u2', 'u3', 's', 'ok', 'fail', 'rb1', 'rb2', 'q', 'u3rb2']
     init_toks = al.init.split()[1:]
     rv_init = op_init(rel=REL2).split()[1:]
-    for stt in states:
-        pre = [al.init] + al.seq(PFX[stt])
+    pres = [(stt, [al.init] + al.seq(PFX[stt])) for stt in states]
+    if tier == 'thorough':
+        # every 2-step and a sample of 3-step lifecycle prefixes, so that the target call starts from
+        # states the named prefixes do not reach (bans, fallbacks, installs during boot, lower numbers)
+        import itertools
+        alpha = ['u1', 'u2', 'u3', 's', 'ok', 'fail', 'R', 'rb1']
+        seqs = list(itertools.product(alpha, repeat=2))
+        r3 = random.Random(7)
+        seqs += r3.sample(list(itertools.product(alpha, repeat=4)), 120)
+        for sq in seqs:
+            pres.append(('x' + '.'.join(sq), [al.init] + al.seq(('u1', 's') + tuple(sq))))
+    for stt, pre in pres:
         for t in single:
             T.append(('%s_%s' % (stt, t), pre, al.ops[t], init_toks, 'same'))
         # selection damaged, then a query falls back
